@@ -628,6 +628,16 @@ def check_C11(run: Run):
         cases.append({"c": {"nq": nq, "nb": nb, "stmts": st}})
     import opensquirrel.default_gates as dg
     from opensquirrel.ir import Float
+    # shapes that cannot be expressed at all: controlled gates whose target is not a rotation, matrix gates
+    from opensquirrel.ir import ControlledGate as _CG11
+    for _ in range(run.n(12, 60)):
+        n_ = rng.randint(3, 4); qs_ = rng.sample(range(n_), 3)
+        pre = [W.w_stmt(dg.X(qs_[0])), g.measure(qs_[1], 0)] if rng.random() < 0.5 else []
+        k_ = rng.randrange(3)
+        if k_ == 0: bad = W.w_stmt(_CG11(qs_[0], _CG11(qs_[1], dg.X(qs_[2]))))
+        elif k_ == 1: bad = g.ctrl_matrix(qs_[0], qs_[1:3])
+        else: bad = g.matrix_gate(qs_[0:2], "swap")
+        cases.append({"c": {"nq": n_, "nb": 1, "stmts": pre + [bad]}})
     for th in (-0.5, 0.5, 2.0, -2.0):       # the negated-axis forms merging produces
         r0 = O.impl_merge({"nq": 1, "nb": 1, "stmts": [W.w_stmt(dg.Rz(0, Float(th)))]})
         cases.append({"c": r0["c"]})
